@@ -55,3 +55,44 @@ register('C20', level='exploration', world='w1t:W1TWorld',
              "on the disjoint store a graph is imported only under an id that currently has no nodes (known finding F-C05)"],
          stubs=['uuid.uuid4 (seeded)', 'store lock (observing SimLock / scheduler-aware ThreadLock)',
                 'thread scheduler: which thread runs next is decided by the seeded scheduler (threads themselves are real)'])
+
+W2_ASSUME = [
+    "links created by connect_interface/peer are not removed by hand through remove_link (outside documented use)",
+    "interfaces are never added to a service with type ServicePort by hand",
+    "cardinality rules 11/12 of the published rules are judged only right after a successful validate()",
+]
+W2_RULE = ("one evaluation = one seeded W2 run: one user session drives an ExperimentTopology (80%%) or SubstrateTopology "
+           "on the shared or the one-graph-per-store backend (optionally with a bystander graph in the same store) through "
+           "3-32 calls drawn from the documented building/removing/property calls with a per-run random mix (swarm), valid and "
+           "deliberately invalid arguments, library-generated and caller-supplied ids, retained or fresh handles. After every "
+           "call the model graph is read white-box from the store. %s Distinct = distinct event-log digest.")
+register('C07', world='w2:W2World', quick=1800, thorough=100000, level='exploration',
+         rule=W2_RULE % "C07 oracles after every call: the published rules (vocabularies pinned in the checker), one owner per "
+                        "component/interface/service, links touch only interfaces, every service port has one peer, names unique "
+                        "per scope, every read-only view lists exactly the model's elements (sampled every 1-8 calls, after every "
+                        "removal and at run end) and refuses mutation. Non-trivial: >=1 call changed the model.",
+         assumptions=W2_ASSUME)
+register('C08', world='w2:W2World', quick=1800, thorough=100000, level='exploration',
+         rule=W2_RULE % "C08 oracle on every removal/disconnect/unpeer/prune of an existing element: the post-state equals the "
+                        "pre-state minus an independently computed owned closure and peering artefacts (service-side port + link; "
+                        "a link goes only when left with < 2 ends), everything else bit-identical; handles the call went through "
+                        "(and that agreed with the model before) list what a fresh lookup lists. Non-trivial: >=1 call changed the model.",
+         assumptions=W2_ASSUME)
+register('C09', world='w2:W2World', quick=1800, thorough=100000, level='fault_enumeration',
+         rule=W2_RULE % "C09: every call that raises must leave the abstract state identical. Besides naturally failing calls of "
+                        "the workload, 'failing' steps draw from a catalogue of ~35 failing-call templates (duplicate name/id per "
+                        "element class, rejected property value at each position among good ones, the i-th of n interfaces bad for "
+                        "every i and n<=3, unknown model, connected interface, sub-interface rules, absent targets, substrate id "
+                        "collisions); 35% of them enumerate the WHOLE applicable catalogue at that state, one call after another. "
+                        "Non-trivial: >=1 call raised.",
+         assumptions=W2_ASSUME + ["fault enumeration is complete per sampled state over the template x position catalogue; the states are sampled"])
+register('C02', world='w2:W2World', quick=1800, thorough=100000, level='exploration',
+         rule=W2_RULE % "C02 oracles: set_property/set_properties/property-style assignment over every name of list_properties() "
+                        "that has a value generator (values per name: capacities, labels, hints, reservation/structural info, "
+                        "gateway, ERO/path info, flags, tags, JSON data, addresses, enums, image ref/type pair) reads back equal "
+                        "by canonical JSON; unset reads as absent and the graph property is gone; get_sliver() of any element "
+                        "equals the abstract sub-tree (every graph property, every child, recursively) and survives "
+                        "sliver->dict->JSON->sliver. Non-trivial: >=1 call changed the model.",
+         assumptions=W2_ASSUME + ["no schedule or fault enters this property; the simulation contributes state diversity only",
+                                  "zero/false/empty field values of the value classes belong to C03 and are not generated",
+                                  "names not exercised through set_property and why: see NOT_GENERATED in simfim/w2_props.py"])
